@@ -721,6 +721,12 @@ func TestConcurrentUse(t *testing.T) {
 				rt.Fatalf("%s: %s fails sequentially: %v", desc, o.name, err)
 			}
 		}
+		// The deterministic entropy source sits behind a mutex: every random draw of a randomized op
+		// would order the goroutines and hide unsynchronised accesses around it from the race detector.
+		// Builders and expectations are done; the concurrent phase runs on the process's own source
+		// (randomized results are cross-checked, never compared with stored values). The next case
+		// installs the seeded source again.
+		detrand.Restore()
 		var wg sync.WaitGroup
 		errs := make(chan string, g*k)
 		start := make(chan struct{})
